@@ -184,7 +184,7 @@ var tsBase = int64(1700000000000)
 // ---- values --------------------------------------------------------------------------------------------
 
 func q(s string) json.RawMessage { b, _ := json.Marshal(s); return b }
-func qs(s string) string        { return string(q(s)) }
+func qs(s string) string         { return string(q(s)) }
 
 // valueOf realises the content value (key, token) for an event of type typ; tokens v1 / v2 / tampered are
 // three different well-typed values.
